@@ -469,9 +469,14 @@ func expectation(w *vf.Worker, doc *jval, sep string) (flat []flatField, want *j
 }
 
 func libOne(w *vf.Worker, doc *jval, size int) {
+	counted := false
 	for _, sep := range seps {
 		flat, want, class := expectation(w, doc, sep)
 		w.Eval(1)
+		if want != nil && !counted {
+			counted = true
+			w.Count("lib-docs-in-guard", 1)
+		}
 		w.Count("lib-class:"+class, 1)
 		rec := toRecord(doc)
 		var got *mlrval.Mlrmap
@@ -687,6 +692,5 @@ func nestWorker(w *vf.Worker) {
 			libOne(w, doc, countLeaves(doc))
 		})
 		w.Count("lib-space:"+sp.name, int64(n))
-		w.Nontrivial(int64(n))
 	}
 }
